@@ -765,6 +765,93 @@ Proof.
   cbn [loads]. rewrite Hd. replace (l - 0) with l by lia. constructor; [exact Hl|apply IH; exact Hl].
 Qed.
 
+(* ... or when no demand is negative and the initial loading covers the demand of ALL customers together and
+   does not exceed the capacity (examples/small.py: capacity 6, initial loading 6, demands 1, 2, 2) *)
+Lemma sumZ_map_filter_zero (f : nat -> Z) (p : nat -> bool) l :
+  (forall j, In j l -> p j = false -> f j = 0) -> sumZ (map f l) = sumZ (map f (filter p l)).
+Proof.
+  induction l as [|a l IH]; intros H; [reflexivity|]. cbn [map filter].
+  assert (IH' : sumZ (map f l) = sumZ (map f (filter p l))) by (apply IH; intros; apply H; [right|]; assumption).
+  destruct (p a) eqn:Ea; cbn [map]; rewrite !sumZ_cons; [lia|]. rewrite (H a (or_introl eq_refl) Ea). lia.
+Qed.
+
+Lemma sumZ_nodup_incl_le (f : nat -> Z) l : forall L,
+  (forall j, 0 <= f j) -> NoDup l -> incl l L -> sumZ (map f l) <= sumZ (map f L).
+Proof.
+  induction l as [|a l IH]; intros L Hf Hnd Hincl.
+  - cbn. apply sumZ_map_nonneg. exact Hf.
+  - inversion Hnd as [|a' l' Hnin Hnd']; subst.
+    assert (HaL : In a L) by (apply Hincl; left; reflexivity).
+    apply in_split in HaL. destruct HaL as (L1 & L2 & ->).
+    assert (Hincl' : incl l (L1 ++ L2)).
+    { intros x Hx. assert (Hx' : In x (L1 ++ a :: L2)) by (apply Hincl; right; exact Hx).
+      apply in_app_or in Hx'. apply in_or_app. destruct Hx' as [Hx'|[Hx'|Hx']]; [left; exact Hx'| subst x; contradiction | right; exact Hx']. }
+    specialize (IH (L1 ++ L2) Hf Hnd' Hincl').
+    cbn [map]. rewrite sumZ_cons. rewrite !map_app, !sumZ_app in *. cbn [map]. rewrite sumZ_cons. lia.
+Qed.
+
+Lemma loads_bounds g : forall rest l lo,
+  (forall j, 0 <= ndemand (Path.node_at g j)) ->
+  lo <= l - sumZ (map (fun j => ndemand (Path.node_at g j)) rest) ->
+  Forall (fun x => lo <= x <= l) (loads g l rest).
+Proof.
+  induction rest as [|j rest IH]; intros l lo Hd Hlo; [constructor|].
+  cbn [loads]. cbn [map] in Hlo. rewrite sumZ_cons in Hlo.
+  pose proof (Hd j) as Hj.
+  assert (Hs : 0 <= sumZ (map (fun j => ndemand (Path.node_at g j)) rest)) by (apply sumZ_map_nonneg; exact Hd).
+  constructor; [lia|].
+  assert (IH' : Forall (fun x => lo <= x <= l - ndemand (Path.node_at g j)) (loads g (l - ndemand (Path.node_at g j)) rest))
+    by (apply IH; [exact Hd|lia]).
+  eapply Forall_impl; [|exact IH']. cbn beta. intros x Hx. lia.
+Qed.
+
+Theorem capacity_free_nonneg_demands st :
+  (forall j, 0 <= ndemand (Path.node_at (pg st) j)) ->
+  (forall j, (num_nodes st <= j)%nat -> ndemand (Path.node_at (pg st) j) = 0) ->
+  pinit st <= pcap st ->
+  sumZ (map (fun j => ndemand (Path.node_at (pg st) j)) (seq 0 (num_nodes st))) <= pinit st ->
+  capacity_free st.
+Proof.
+  intros Hd Hout Hcap Hsum cs Hnd Hn0.
+  set (f := fun j => ndemand (Path.node_at (pg st) j)) in *.
+  assert (Hnd' : NoDup (cs ++ [O])).
+  { clear - Hnd Hn0. induction cs as [|a cs IH]; [constructor; [intros []|constructor]|].
+    inversion Hnd as [|a' cs' Hnin Hnd1]; subst. cbn [app]. constructor.
+    - intros Hin. apply in_app_or in Hin. destruct Hin as [Hin|[Hin|[]]]; [contradiction|]. apply Hn0. left. symmetry. exact Hin.
+    - apply IH; [exact Hnd1|]. intros H0. apply Hn0. right. exact H0. }
+  assert (Hle : sumZ (map f (cs ++ [O])) <= sumZ (map f (seq 0 (num_nodes st)))).
+  { rewrite (sumZ_map_filter_zero f (fun j => Nat.ltb j (num_nodes st))).
+    - apply sumZ_nodup_incl_le; [exact Hd | apply NoDup_filter; exact Hnd' |].
+      intros x Hx. apply filter_In in Hx. destruct Hx as [_ Hx]. apply Nat.ltb_lt in Hx. apply in_seq. lia.
+    - intros j _ Hj. apply Nat.ltb_ge in Hj. apply Hout. exact Hj. }
+  assert (Hb : Forall (fun x => 0 <= x <= pinit st) (loads (pg st) (pinit st) (cs ++ [O]))).
+  { apply loads_bounds; [exact Hd|]. fold f. lia. }
+  eapply Forall_impl; [|exact Hb]. cbn beta. intros x Hx. lia.
+Qed.
+
+Lemma map_nth_seq {A B} (f : A -> B) (l : list A) d :
+  map (fun j => f (nth j l d)) (seq 0 (length l)) = map f l.
+Proof.
+  induction l as [|a l IH]; [reflexivity|]. cbn [length seq map nth]. f_equal.
+  rewrite <- seq_shift, map_map. exact IH.
+Qed.
+
+(* the same as a boolean test on the node list (decidable per instance) *)
+Theorem capacity_free_nonneg_demandsb st :
+  forallb (fun nd => 0 <=? ndemand nd) (nodes (pg st)) = true ->
+  (pinit st <=? pcap st) = true ->
+  (sumZ (map ndemand (nodes (pg st))) <=? pinit st) = true ->
+  capacity_free st.
+Proof.
+  intros Hall Hc Hs. apply Z.leb_le in Hc. apply Z.leb_le in Hs. rewrite forallb_forall in Hall.
+  apply capacity_free_nonneg_demands; [| |exact Hc|].
+  - intros j. unfold Path.node_at. destruct (nth_in_or_default j (nodes (pg st)) dummy_node) as [Hin| ->].
+    + apply Z.leb_le. apply Hall. exact Hin.
+    + cbn. lia.
+  - intros j Hj. unfold Path.node_at, num_nodes in *. rewrite nth_overflow by exact Hj. reflexivity.
+  - unfold num_nodes, Path.node_at. rewrite (map_nth_seq ndemand). exact Hs.
+Qed.
+
 (* ====================================================================== *)
 (* 11. C04_default_exact in the vocabulary of zsys                          *)
 (* ====================================================================== *)
